@@ -956,8 +956,35 @@ func boundBy(f File, key int) (int, bool) {
 }
 
 type violation struct {
-	pred string
+	pred string // "name" or "name|key=value;key=value": attributes go into the signature of the failure
 	what string
+}
+
+// withAttrs attaches signature attributes (computed from the INPUT, e.g. what the model of the unchanged code
+// predicts for the object that fails) to a predicate name.
+func withAttrs(pred string, kv ...string) string { return pred + "|" + strings.Join(kv, ";") }
+
+// sigOf builds the signature of a failure from a predicate with attributes.
+func sigOf(pred string, base map[string]any) (map[string]any, string) {
+	name, attrs, _ := strings.Cut(pred, "|")
+	sig := map[string]any{"pred": name}
+	for k, v := range base {
+		sig[k] = v
+	}
+	if attrs != "" {
+		for _, kv := range strings.Split(attrs, ";") {
+			k, v, _ := strings.Cut(kv, "=")
+			switch v {
+			case "true":
+				sig[k] = true
+			case "false":
+				sig[k] = false
+			default:
+				sig[k] = v
+			}
+		}
+	}
+	return sig, name
 }
 
 // checkList checks the merge laws for one result list against its parts.
@@ -1164,11 +1191,19 @@ func oracle(c Case, o outcome, safe6 bool) []violation {
 		}
 		return []violation{{pred, "runtime panic instead of a merged configuration or a diagnostic"}}
 	}
+	// diagnostics, judged from the generator's input alone
+	mustFail, surelyFine := expectDiagnostic(c)
 	if o.Err != "" {
+		if surelyFine {
+			return []violation{{"valid_input_rejected", "input without any unmergeable entry ends with: " + o.Err}}
+		}
 		return nil // a diagnostic was given
 	}
 	if len(o.Odd) > 0 {
 		return nil // handled as disagreement
+	}
+	if mustFail != "" {
+		vs = append(vs, violation{"unmergeable_entry_not_reported", mustFail + ": no error"})
 	}
 	isWarned := func(n int) bool {
 		for _, w := range o.Warn {
@@ -1183,7 +1218,8 @@ func oracle(c Case, o outcome, safe6 bool) []violation {
 		for _, ct := range c.Raw.Conts {
 			for _, l := range ct.Lines {
 				if !l.Known && !isWarned(ct.Name) {
-					vs = append(vs, violation{"raw_unknown_subcommand_dropped_silently",
+					// model_predicts: the line matches no template of `ip access-list extended` (input attribute)
+					vs = append(vs, violation{withAttrs("raw_unknown_subcommand_dropped_silently", "model_predicts=true", "line_kind=ios_acl_subcommand_without_template"),
 						fmt.Sprintf("raw ACL %d: unknown sub-command %d dropped without error or warning", ct.Name, l.ID)})
 				}
 			}
@@ -1200,8 +1236,13 @@ func oracle(c Case, o outcome, safe6 bool) []violation {
 				vs = append(vs, violation{"raw_unbound_object_not_reported", fmt.Sprintf("raw ACL %d is not bound; no warning", ct.Name)})
 			}
 		}
-		if len(vs) > 0 {
-			return vs
+		// (no return here: the laws are checked on the known lines of every binding anyway)
+		// ACL names of IPv4 that the IPv6 file binds at a place IPv4 does not bind (F-C18g): per object
+		affected := map[int]bool{}
+		for _, a := range c.V6.Anchors {
+			if _, ok := boundBy(c.V4, a.Key); !ok && contOf(c.V4, a.ACL).ok {
+				affected[a.ACL] = true
+			}
 		}
 		keys := map[int]bool{}
 		for _, f := range []File{c.V4, c.V6, c.Raw} {
@@ -1232,8 +1273,10 @@ func oracle(c Case, o outcome, safe6 bool) []violation {
 			// classify the one known way of losing IPv4 lines
 			for i := range l {
 				if l[i].pred == "entry_lost_or_duplicated" || l[i].pred == "foreign_entry" {
-					if !safe6 {
-						l[i].pred = "v6_new_anchor_shares_acl_name_with_v4"
+					if (ok4 && affected[n4]) || (ok6 && affected[n6]) {
+						// this binding shows the ACL whose name is reused; model_predicts = the Lean hypothesis
+						// safeMerge of cisco_netspoc_lines_kept_partial fails on this input
+						l[i].pred = withAttrs("v6_new_anchor_shares_acl_name_with_v4", "affected_object=true", "model_predicts="+strconv.FormatBool(!safe6))
 					}
 				}
 			}
@@ -1282,6 +1325,83 @@ func oracle(c Case, o outcome, safe6 bool) []violation {
 		vs = append(vs, checkList(c.Dev, res, p4.lines, p6.lines, raw, where)...)
 	}
 	return vs
+}
+
+// expectDiagnostic judges from the generator's input alone (no parser, no model):
+// mustFail != "" : the input has an entry of an unmergeable kind that certainly has to be reported by an error;
+// surelyFine     : the input has no entry of any unmergeable kind, so no error may come.
+func expectDiagnostic(c Case) (mustFail string, surelyFine bool) {
+	surelyFine = true
+	if c.Raw.Present && c.Raw.UnknownTop {
+		return "raw file contains a command / rule name the parser has to reject", false
+	}
+	names := func(f File) map[int]bool {
+		m := map[int]bool{}
+		for _, ct := range f.Conts {
+			m[ct.Name] = true
+		}
+		return m
+	}
+	switch c.Dev {
+	case "asa", "ios":
+		net := names(c.V4)
+		for n := range names(c.V6) {
+			net[n] = true
+		}
+		bound := map[int]int{}
+		for _, a := range c.Raw.Anchors {
+			if !contOf(c.Raw, a.ACL).ok {
+				return fmt.Sprintf("raw binding references undefined ACL %d", a.ACL), false
+			}
+			bound[a.ACL]++
+		}
+		for n, k := range bound {
+			if k >= 2 {
+				return fmt.Sprintf("raw ACL %d is bound %d times", n, k), false
+			}
+		}
+		for n := range names(c.Raw) {
+			if net[n] {
+				surelyFine = false // shared name: clash or not depends on where it is bound
+			}
+		}
+		bound6 := map[int]int{}
+		for _, a := range c.V6.Anchors {
+			bound6[a.ACL]++
+			if bound6[a.ACL] >= 2 {
+				surelyFine = false // an IPv6 ACL bound twice: error or not depends on the kind of binding
+			}
+		}
+	case "linux":
+		seen := map[int]bool{}
+		for i, f := range []File{c.V4, c.V6, c.Raw} {
+			for _, ct := range f.Conts {
+				_, _, user := linuxTC(ct.Name)
+				if i > 0 && user && seen[ct.Name] && seenTable(c, i, ct.Name) {
+					return fmt.Sprintf("user chain %d of part %d is defined by an earlier part", ct.Name, i), false
+				}
+			}
+			for _, ct := range f.Conts {
+				seen[ct.Name] = true
+			}
+		}
+	}
+	return "", surelyFine
+}
+
+// seenTable: some earlier part has the table of chain n.
+func seenTable(c Case, part, n int) bool {
+	for i, f := range []File{c.V4, c.V6, c.Raw} {
+		if i >= part {
+			break
+		}
+		for _, ct := range f.Conts {
+			if (ct.Name/5)%2 == (n/5)%2 {
+				return true
+			}
+		}
+	}
+	return false
 }
 
 // v6SharesName: the IPv6 file binds, at an anchor the IPv4 file does not have, an ACL whose name the
@@ -1720,6 +1840,7 @@ func runC18(ctx *Ctx) *Result {
 		res.Notes = append(res.Notes, "model generation: old (code as found)")
 	}
 
+	judged, total := map[string]int{}, map[string]int{}
 	runCase := func(c Case) {
 		o := runReal(c)
 		impl := o.canon()
@@ -1890,9 +2011,14 @@ func runC18(ctx *Ctx) *Result {
 			res.Count("note:safeMerge-differs-from-simple-shared-name-test")
 		}
 		for _, v := range oracle(c, o, safe6) {
-			res.Count("oracle:" + v.pred)
-			res.Fail(map[string]any{"pred": v.pred, "backend": c.Dev}, v.what, c)
+			sig, name := sigOf(v.pred, map[string]any{"backend": c.Dev})
+			res.Count("oracle:" + name)
+			res.Fail(sig, v.what, c)
 		}
+		if o.Err == "" && len(o.Odd) == 0 {
+			judged[c.Dev]++
+		}
+		total[c.Dev]++
 		if len(res.Samples) < 4 && mixes && nApp > 0 {
 			res.Sample(map[string]any{"case": c.enc(genName), "impl": impl})
 		}
@@ -1936,6 +2062,12 @@ func runC18(ctx *Ctx) *Result {
 	for i := 0; i < n; i++ {
 		for _, d := range devs {
 			runCase(g.genCase(d))
+		}
+	}
+	// floor: the laws are judged only on cases that end without a diagnostic; most cases must do so
+	for _, d := range devs {
+		if total[d] > 100 && judged[d]*2 < total[d] {
+			res.Disagree("c18 floor: too few cases judged", map[string]any{"backend": d}, fmt.Sprintf("%d of %d cases end with a merged target", judged[d], total[d]), "at least half")
 		}
 	}
 	runCisco3(ctx, res, drv)
